@@ -70,6 +70,10 @@ type Case struct {
 	Intents []Intent `json:"intents,omitempty"`
 	Replace *Intent  `json:"replace,omitempty"`
 	DryRun  bool     `json:"dry_run,omitempty"`
+	// set target: the transaction timeout of the request in seconds (the field is optional: 0 and negative values are
+	// protobuf-valid) and what the client does with an accepted transaction afterwards
+	TimeoutSec int64  `json:"timeout_sec,omitempty"`
+	After      string `json:"after,omitempty"` // "" | cancel | confirm | cancel-cancel | confirm-cancel
 	// get
 	Paths    [][]PElem `json:"paths,omitempty"`
 	Encoding int32     `json:"encoding,omitempty"`
@@ -352,6 +356,8 @@ func gen(t *rapid.T) *Case {
 			c.Replace = &r
 		}
 		c.DryRun = rapid.Bool().Draw(t, "dry")
+		c.TimeoutSec = rapid.SampledFrom([]int64{3600, 3600, 0, -1, 1 << 40}).Draw(t, "timeout-sec")
+		c.After = rapid.SampledFrom([]string{"", "cancel", "confirm", "cancel-cancel", "confirm-cancel"}).Draw(t, "after")
 	case "get":
 		n := rapid.IntRange(0, 3).Draw(t, "npaths")
 		for i := 0; i < n; i++ {
@@ -596,11 +602,26 @@ func Exec(c *Case) (nontrivial bool, labels []string, fail *vlib.Failure) {
 			lab = append(lab, "with-replace")
 		}
 		f := withDeadline("TransactionSet", func() {
+			if c.TimeoutSec != 0 || c.After != "" {
+				h.Timeout = time.Duration(c.TimeoutSec) * time.Second
+			}
 			_, err := h.SetRequest("fz", reqs, rep, c.DryRun)
 			if err != nil {
 				lab = append(lab, "set-error")
 			} else {
 				lab = append(lab, "set-ok")
+				// what a client may do next with the transaction id (whatever the answers are, nothing may crash)
+				for _, a := range strings.Split(c.After, "-") {
+					switch a {
+					case "cancel":
+						_ = h.DS.TransactionCancel(ctx, "fz")
+					case "confirm":
+						_ = h.DS.TransactionConfirm(ctx, "fz")
+					}
+				}
+				if c.TimeoutSec <= 1 {
+					lab = append(lab, "short-or-nonpositive-timeout")
+				}
 			}
 			h.FreeSlot("fz")
 		})
